@@ -279,6 +279,10 @@ class FnTr(object):
                     c = self.expr(e.value)
                     k = self.expr(e.slice.lower)
                     return self.bind("Py.sliceFrom %s %s" % (c, k))
+                if e.slice.lower is None and e.slice.upper is not None and e.slice.step is None:
+                    c = self.expr(e.value)
+                    k = self.expr(e.slice.upper)
+                    return self.bind("Py.sliceTo %s %s" % (c, k))
                 raise Unsupported("slice")
             c = self.expr(e.value)
             k = self.expr(e.slice)
@@ -945,6 +949,67 @@ class _LoopRewrite(ast.NodeTransformer):
         raise Unsupported("nested loop")
 
 
+def _mutated_roots(stmts):
+    """names of local objects an attribute / item of which is assigned in these statements"""
+    out = []
+    for n in ast.walk(ast.Module(body=list(stmts), type_ignores=[])):
+        if isinstance(n, (ast.Assign, ast.AugAssign)):
+            for t in (n.targets if isinstance(n, ast.Assign) else [n.target]):
+                for x in (t.elts if isinstance(t, ast.Tuple) else [t]):
+                    if isinstance(x, (ast.Attribute, ast.Subscript)):
+                        r = x
+                        while isinstance(r, (ast.Attribute, ast.Subscript)):
+                            r = r.value
+                        if isinstance(r, ast.Name) and r.id not in out:
+                            out.append(r.id)
+    return out
+
+
+class _ReturnWith(ast.NodeTransformer):
+    def __init__(self, roots):
+        self.roots = roots
+
+    def visit_Return(self, node):
+        v = node.value if node.value is not None else ast.Constant(value=None)
+        return ast.Return(value=ast.Tuple(elts=[v] + [ast.Name(id=r, ctx=ast.Load()) for r in self.roots], ctx=ast.Load()))
+
+
+def loop_method(fn_node, extra):
+    """A method of the shape  <statements> ; while ...: <body> ; <statements>  as pure functions: `__pre` (effect-parameterised, with its request functions),
+    the loop's `__cond` / `__iter` / request functions, and `__post` = the statements after the loop, returning (return value, objects it mutated)."""
+    import copy as _copy
+    body = strip_docstring(list(fn_node.body))
+    idx = [i for i, st in enumerate(body) if isinstance(st, ast.While)]
+    if len(idx) != 1:
+        raise Unsupported("expected exactly one top-level while loop")
+    i = idx[0]
+    out = []
+    params = [a.arg for a in fn_node.args.args if a.arg != "self"]
+
+    def mk(name, ps, b):
+        return ast.FunctionDef(name=name, args=ast.arguments(posonlyargs=[], args=[ast.arg(arg=p_) for p_ in ps], kwonlyargs=[], kw_defaults=[], defaults=[]), body=b, decorator_list=[])
+    if body[:i]:
+        pre = mk(fn_node.name + "__pre", ["self"] + params, _copy.deepcopy(body[:i]))
+        main, argfns, _ = effect_function(pre, extra)
+        out.append(("pre_fn", main))
+        out += [(a.name.split("__")[-1].replace("eff", "pre_eff"), a) for a in argfns]
+    cond, it, effs, info = loop_iteration(mk(fn_node.name, ["self"] + params, [body[i]]), extra)
+    out += [("cond", cond), ("iter", it)] + [(e.name.split("__")[-1], e) for e in effs]
+    if body[i + 1:]:
+        post_body = _copy.deepcopy(body[i + 1:])
+        roots = [r for r in _mutated_roots(post_body) if r != "self"]
+        if roots:
+            post_body = [_ReturnWith(roots).visit(st) for st in post_body]
+            if not isinstance(post_body[-1], ast.Return):
+                post_body.append(ast.Return(value=ast.Tuple(elts=[ast.Constant(value=None)] + [ast.Name(id=r, ctx=ast.Load()) for r in roots], ctx=ast.Load())))
+        free = []
+        for n in ast.walk(ast.Module(body=post_body, type_ignores=[])):
+            if isinstance(n, ast.Name) and isinstance(n.ctx, ast.Load) and n.id not in free and n.id in params + info["state"] + info["carried"]:
+                free.append(n.id)
+        out.append(("post", mk(fn_node.name + "__post", sorted(free), post_body)))
+    return out
+
+
 def loop_iteration(fn_node, extra=()):
     """(cond function node, iteration function node, [effect-args function nodes], info) for a method whose body contains exactly one `while` loop at top level."""
     body = strip_docstring(list(fn_node.body))
@@ -959,6 +1024,9 @@ def loop_iteration(fn_node, extra=()):
                 for x in (t.elts if isinstance(t, ast.Tuple) else [t]):
                     if isinstance(x, ast.Name) and x.id not in assigned:
                         assigned.append(x.id)
+    for r in _mutated_roots(loop.body):
+        if r not in assigned and r != "self":
+            assigned.append(r)
     import copy as _copy
     rw = _LoopRewrite(sorted(assigned), extra)
     new_body = [rw.visit(_copy.deepcopy(st)) for st in loop.body]
@@ -966,7 +1034,8 @@ def loop_iteration(fn_node, extra=()):
     new_body.append(rw._tagged("continue"))
     # free variables of the loop (read before being assigned in an iteration): parameters of the iteration function
     reads = []
-    for n in ast.walk(ast.Module(body=[ast.Expr(value=loop.test)] + new_body, type_ignores=[])):
+    eff_arg_exprs = [ast.Expr(value=a) for _, _, args in rw.effects for a in args]
+    for n in ast.walk(ast.Module(body=[ast.Expr(value=loop.test)] + new_body + eff_arg_exprs, type_ignores=[])):
         if isinstance(n, ast.Name) and isinstance(n.ctx, ast.Load) and n.id not in reads:
             reads.append(n.id)
     eff_names = [e[0] for e in rw.effects]
@@ -1206,6 +1275,9 @@ def build_units(repo):
                     if m.name in ("_okay", "_clse", "_read_until", "_open"):
                         main, argfns, info = effect_function(m, STREAM_EFFECTS)
                         for node, suffix in [(main, "fn")] + [(a, a.name.split("__")[-1]) for a in argfns]:
+                            u.add_function("", node, lean="%s_%s" % (tag, suffix), params=[a.arg for a in node.args.args])
+                    elif m.name in ("_filesync_read_buffered", "_filesync_flush"):
+                        for suffix, node in loop_method(m, STREAM_EFFECTS):
                             u.add_function("", node, lean="%s_%s" % (tag, suffix), params=[a.arg for a in node.args.args])
                     elif m.name == "_read_until_close":
                         cond, it, effs, info = loop_iteration(m, STREAM_EFFECTS)
